@@ -2,6 +2,11 @@ package core
 
 import (
 	"fmt"
+	"reflect"
+	"strings"
+
+	"github.com/ipfs/go-cid"
+	cidlink "github.com/ipld/go-ipld-prime/linking/cid"
 
 	"github.com/ipld/go-ipld-prime/datamodel"
 	"github.com/ipld/go-ipld-prime/node/bindnode"
@@ -59,6 +64,129 @@ func (e *BindEngine) NewTypeBuilder(typeName string) (datamodel.NodeBuilder, err
 }
 
 func (e *BindEngine) NewReprBuilder(typeName string) (datamodel.NodeBuilder, error) {
+	p, err := e.proto(typeName)
+	if err != nil {
+		return nil, err
+	}
+	return p.Representation().NewBuilder(), nil
+}
+
+// UserBindEngine: bindnode.Prototype(ptrToGoValue, schemaType) with caller-supplied Go types.  The Go types are built
+// with reflect along bindnode's documented shape vocabulary, varying the choices a user has: an int-represented enum
+// as a Go integer kind or a string, links as cid.Cid / cidlink.Link / datamodel.Link, ints as int64 / int.  Every
+// choice is derived from the type's token form, so a case line determines the binding.
+type UserBindEngine struct {
+	ts     *schema.TypeSystem
+	protos map[string]schema.TypedPrototype
+	salt   uint64
+}
+
+func NewUserBindEngine(ts *schema.TypeSystem, salt string) *UserBindEngine {
+	h := uint64(1469598103934665603)
+	for _, c := range []byte(salt) {
+		h = (h ^ uint64(c)) * 1099511628211
+	}
+	return &UserBindEngine{ts: ts, protos: map[string]schema.TypedPrototype{}, salt: h}
+}
+
+func (e *UserBindEngine) Name() string      { return "bindnode-user-types" }
+func (e *UserBindEngine) ModelName() string { return "bindnode" }
+
+func (e *UserBindEngine) pick(name string, n int) int {
+	h := e.salt
+	for _, c := range []byte(name) {
+		h = (h ^ uint64(c)) * 1099511628211
+	}
+	h ^= h >> 29
+	return int(h % uint64(n))
+}
+
+func userFieldName(name string) string { return strings.Title(name) } //lint:ignore SA1019 mirrors bindnode
+
+func (e *UserBindEngine) goType(t schema.Type) reflect.Type {
+	switch typ := t.(type) {
+	case *schema.TypeBool:
+		return reflect.TypeOf(false)
+	case *schema.TypeInt:
+		return []reflect.Type{reflect.TypeOf(int64(0)), reflect.TypeOf(int(0))}[e.pick("int:"+typ.Name(), 2)]
+	case *schema.TypeFloat:
+		return reflect.TypeOf(float64(0))
+	case *schema.TypeString:
+		return reflect.TypeOf("")
+	case *schema.TypeBytes:
+		return reflect.TypeOf([]byte(nil))
+	case *schema.TypeLink:
+		return []reflect.Type{reflect.TypeOf((*datamodel.Link)(nil)).Elem(), reflect.TypeOf(cid.Cid{}), reflect.TypeOf(cidlink.Link{})}[e.pick("link:"+typ.Name(), 3)]
+	case *schema.TypeAny:
+		return reflect.TypeOf((*datamodel.Node)(nil)).Elem()
+	case *schema.TypeEnum:
+		if _, ok := typ.RepresentationStrategy().(schema.EnumRepresentation_Int); ok {
+			return []reflect.Type{reflect.TypeOf(""), reflect.TypeOf(int32(0)), reflect.TypeOf(int64(0)), reflect.TypeOf(int(0))}[e.pick("enum:"+typ.Name(), 4)]
+		}
+		return reflect.TypeOf("")
+	case *schema.TypeList:
+		et := e.goType(typ.ValueType())
+		if typ.ValueIsNullable() {
+			et = reflect.PointerTo(et)
+		}
+		return reflect.SliceOf(et)
+	case *schema.TypeMap:
+		kt := e.goType(typ.KeyType())
+		vt := e.goType(typ.ValueType())
+		if typ.ValueIsNullable() {
+			vt = reflect.PointerTo(vt)
+		}
+		return reflect.StructOf([]reflect.StructField{{Name: "Keys", Type: reflect.SliceOf(kt)}, {Name: "Values", Type: reflect.MapOf(kt, vt)}})
+	case *schema.TypeStruct:
+		var fs []reflect.StructField
+		for _, f := range typ.Fields() {
+			ft := e.goType(f.Type())
+			if f.IsNullable() {
+				ft = reflect.PointerTo(ft)
+			}
+			if f.IsOptional() {
+				ft = reflect.PointerTo(ft)
+			}
+			fs = append(fs, reflect.StructField{Name: userFieldName(f.Name()), Type: ft})
+		}
+		return reflect.StructOf(fs)
+	case *schema.TypeUnion:
+		var fs []reflect.StructField
+		for _, m := range typ.Members() {
+			fs = append(fs, reflect.StructField{Name: userFieldName(m.Name()), Type: reflect.PointerTo(e.goType(m))})
+		}
+		return reflect.StructOf(fs)
+	}
+	panic(fmt.Sprintf("UserBindEngine: no Go type for %T", t))
+}
+
+func (e *UserBindEngine) proto(typeName string) (p schema.TypedPrototype, err error) {
+	if p, ok := e.protos[typeName]; ok {
+		return p, nil
+	}
+	t := e.ts.TypeByName(typeName)
+	if t == nil {
+		return nil, fmt.Errorf("no type %q in the type system", typeName)
+	}
+	defer func() {
+		if r := recover(); r != nil {
+			err = fmt.Errorf("bindnode.Prototype(user Go type, %s) panicked: %v", typeName, r)
+		}
+	}()
+	p = bindnode.Prototype(reflect.New(e.goType(t)).Interface(), t)
+	e.protos[typeName] = p
+	return p, nil
+}
+
+func (e *UserBindEngine) NewTypeBuilder(typeName string) (datamodel.NodeBuilder, error) {
+	p, err := e.proto(typeName)
+	if err != nil {
+		return nil, err
+	}
+	return p.NewBuilder(), nil
+}
+
+func (e *UserBindEngine) NewReprBuilder(typeName string) (datamodel.NodeBuilder, error) {
 	p, err := e.proto(typeName)
 	if err != nil {
 		return nil, err
